@@ -4,6 +4,7 @@
 From Coq Require Import NArith ZArith List Bool Arith Lia.
 From PLV Require Import Base.PyStr Tok.PState Tok.Tokenizer Parse.Nodes Parse.Parser Parse.ParseWire
                         Parse.Stateful.
+From PLV Require Gen.GenWalkerCtx.
 Import ListNotations.
 
 (** * Keys *)
@@ -374,3 +375,43 @@ Lemma counter_on_instance_differs :
 Proof.
   vm_compute. split; [|split; reflexivity]. intros H. discriminate H.
 Qed.
+
+(** * The generated default context against [kind_of_spec]
+    [Gen/GenWalkerCtx.v] records, for every argument of the live default walker
+    database, the specification string and the parser kind decoded structurally
+    from the live parser object (harness/ctxwire.py).  Sweep: every recorded
+    kind is [kind_of_spec] of the recorded string for some constructor fields —
+    the model's mirror of [get_arg_parser_instance] agrees with the table
+    regenerated from /repo on this run. *)
+Definition ostr2_eqb (a b : option (str * str)) : bool :=
+  match a, b with
+  | None, None => true
+  | Some (x1, y1), Some (x2, y2) => str_eqb x1 x2 && str_eqb y1 y2
+  | _, _ => false
+  end.
+Definition argkind_eqb (a b : argkind) : bool :=
+  match a, b with
+  | AKExpr x, AKExpr y => Bool.eqb x y
+  | AKGroup o1 c1 p1 a1, AKGroup o2 c2 p2 a2 => str_eqb o1 o2 && str_eqb c1 c2 && Bool.eqb p1 p2 && Bool.eqb a1 a2
+  | AKChars h1 a1 f1, AKChars h2 a2 f2 => str_eqb h1 h2 && Bool.eqb a1 a2 && Bool.eqb f1 f2
+  | AKVerb d1, AKVerb d2 => ostr2_eqb d1 d2
+  | _, _ => false
+  end.
+Definition arg_standard (a : argspec) : bool :=
+  existsb (fun af : bool * bool =>
+             match kind_of_spec (a_spec a) (fst af) (snd af) with
+             | Some k => argkind_eqb k (a_kind a)
+             | None => false
+             end)
+          [(true, false); (false, false); (true, true); (false, true)].
+Definition cspec_standard (c : cspec) : bool :=
+  match sp_args c with APStd l => forallb arg_standard l | APLegacy _ => true end.
+Definition ctx_standard (cx : context) : bool :=
+  forallb (fun n => cspec_standard (snd n)) (cx_macros cx)
+  && forallb (fun n => cspec_standard (snd n)) (cx_envs cx)
+  && forallb (fun n => cspec_standard (snd n)) (cx_specials cx)
+  && match cx_unk_macro cx with Some c => cspec_standard c | None => true end
+  && match cx_unk_env cx with Some c => cspec_standard c | None => true end.
+
+Lemma default_ctx_standard : ctx_standard Gen.GenWalkerCtx.default_ctx = true.
+Proof. vm_compute. reflexivity. Qed.
